@@ -19,6 +19,7 @@ type ModSets struct {
 	compSorts map[string]func(c *Ctx) Sort
 	namedTypes []types.Type
 	addrTaken map[string][]*ssa.Function // by signature string
+	paramCalls map[*ssa.Function][]int  // indices of func-typed parameters a function calls directly (and only calls)
 	done      bool
 	frozen    map[string]bool
 	cellOwner map[string]*ssa.Function
@@ -27,7 +28,7 @@ type ModSets struct {
 
 func newModSets(w *World, sp *Specs) *ModSets {
 	m := &ModSets{w: w, sp: sp, direct: map[*ssa.Function]map[string]bool{}, callees: map[*ssa.Function][]*ssa.Function{},
-		total: map[*ssa.Function]map[string]bool{}, compSorts: map[string]func(c *Ctx) Sort{}, addrTaken: map[string][]*ssa.Function{}, cellOwner: map[string]*ssa.Function{}}
+		total: map[*ssa.Function]map[string]bool{}, compSorts: map[string]func(c *Ctx) Sort{}, addrTaken: map[string][]*ssa.Function{}, paramCalls: map[*ssa.Function][]int{}, cellOwner: map[string]*ssa.Function{}}
 	m.compSorts[compAlloc] = func(c *Ctx) Sort { return SInt }
 	for _, sp := range w.SPkgs {
 		for _, mem := range sp.Members {
@@ -209,8 +210,70 @@ func (m *ModSets) staticCallees(call *ssa.CallCommon) (fns []*ssa.Function, lib 
 		return nil, false
 	}
 	// dynamic call through a function value
+	if p, ok := call.Value.(*ssa.Parameter); ok && m.onlyCalled(p) {
+		// the effects are those of the function the caller passes: accounted for at the call sites (paramCallees)
+		return nil, false
+	}
 	sig := call.Value.Type().Underlying().(*types.Signature)
 	return m.addrTaken[sigKey(sig)], true
+}
+
+// onlyCalled: a func-typed parameter whose only uses are direct calls (and debug refs).
+func (m *ModSets) onlyCalled(p *ssa.Parameter) bool {
+	if _, ok := p.Type().Underlying().(*types.Signature); !ok || p.Parent() == nil || p.Referrers() == nil {
+		return false
+	}
+	for _, r := range *p.Referrers() {
+		switch x := r.(type) {
+		case *ssa.DebugRef:
+		case *ssa.Call:
+			if x.Call.Value != p {
+				return false
+			}
+			for _, a := range x.Call.Args {
+				if a == p {
+					return false
+				}
+			}
+		default:
+			return false
+		}
+	}
+	return true
+}
+
+// paramCallees: functions that run inside a call because the callee calls a func-typed parameter directly:
+// the closure / function passed at this call site, or every address-taken function of that signature.
+func (m *ModSets) paramCallees(call *ssa.CallCommon) []*ssa.Function {
+	var out []*ssa.Function
+	callees, _ := m.staticCallees(call)
+	for _, c := range callees {
+		for i, p := range c.Params {
+			if !m.onlyCalled(p) {
+				continue
+			}
+			called := false
+			for _, r := range *p.Referrers() {
+				if _, ok := r.(*ssa.Call); ok {
+					called = true
+				}
+			}
+			if !called || call.IsInvoke() || i >= len(call.Args) {
+				continue
+			}
+			switch a := call.Args[i].(type) {
+			case *ssa.MakeClosure:
+				out = append(out, a.Fn.(*ssa.Function))
+			case *ssa.Function:
+				if inModule(a) && len(a.Blocks) > 0 {
+					out = append(out, a)
+				}
+			default:
+				out = append(out, m.addrTaken[sigKey(p.Type().Underlying().(*types.Signature))]...)
+			}
+		}
+	}
+	return out
 }
 
 func sigKey(s *types.Signature) string {
@@ -410,6 +473,7 @@ func (m *ModSets) compute() {
 					call := x.Common()
 					callees, lib := m.staticCallees(call)
 					cs = append(cs, callees...)
+					cs = append(cs, m.paramCallees(call)...)
 					for _, c := range m.callArgMods(fn, call, lib) {
 						d[c] = true
 					}
@@ -576,6 +640,15 @@ func (m *ModSets) callMods(fn *ssa.Function, call *ssa.CallCommon) []string {
 	out = append(out, m.lockMods(fn, call)...)
 	for _, c := range callees {
 		out = append(out, m.modsVisible(c, fn)...)
+	}
+	for _, c := range m.paramCallees(call) {
+		out = append(out, m.modsVisible(c, fn)...)
+	}
+	if p, ok := call.Value.(*ssa.Parameter); ok && m.onlyCalled(p) {
+		// inside the function that owns the parameter nothing is known about the function passed
+		for _, c := range m.addrTaken[sigKey(p.Type().Underlying().(*types.Signature))] {
+			out = append(out, m.modsVisible(c, fn)...)
+		}
 	}
 	if lib && !nonCallbackPkgs[calleePkgPath(call)] {
 		for _, a := range call.Args {
